@@ -14,7 +14,7 @@ RULE = ("Model-based history generation: a program is a list of up to 30 public 
         "R/N/M/shape/is_ttm recomputed from the cores, properties return copies, one dtype, full().shape == M+N. Library "
         "exceptions on an operation are recorded, not violations. Non-trivial: an in-place operation or a pooled "
         "optional argument is followed by a further operation on the same object. Distinct = program signature.")
-BUDGET = {"quick": 2400, "thorough": 60000}
+BUDGET = {"quick": 6400, "thorough": 96000}
 FLOORS = {"quick": {"has_inplace": 600, "inplace_followed": 300, "derived_from_modified": 100, "optional_arg": 300}}
 SHRINK = {"quick": True, "thorough": True}
 ASSUMPTIONS = ["the empty TT (TT(None)) is outside the scope", "a library exception raised by an operation is recorded and "
@@ -45,8 +45,16 @@ def strategy_case(draw):
             draw(gen.tt_spec(dmin=1, dmax=3, sizes=(1, 2, 3), rmax=2, dt="f64", mode="gauss", ttm=True, maxnumel=27)),
             draw(gen.tt_spec(dmin=2, dmax=4, sizes=(1, 1, 2, 3), rmax=3, dt="f64", mode="gauss", maxnumel=256))]
     n = draw(st.sampled_from([1, 2, 3, 5, 8, 12, 16, 20, 30]))
-    ops = draw(st.lists(op_strategy(), min_size=n, max_size=n))
-    return {"init": init, "ops": ops}
+    drawn = draw(st.lists(op_strategy(), min_size=n, max_size=n))
+    # every operation is followed, with probability 1/4, by an in-place modification of its result or of one of its
+    # operands (even p selects a related receiver in the executor): parent/child and aliasing histories for every op kind
+    ops = []
+    for o in drawn:
+        ops.append(o)
+        if o["op"] not in machine.INPLACE and draw(st.integers(0, 3)) == 0:
+            ops.append({"op": draw(st.sampled_from(["set_core", "set_core_newsize", "set_core_newsize", "reduce_dims", "reduce_dims_exclude"])),
+                        "a": draw(st.integers(0, 15)), "b": 0, "c": 0, "p": 2 * draw(st.integers(0, 31)), "seed": draw(st.integers(0, 10 ** 6))})
+    return {"init": init, "ops": ops[:40]}
 
 
 def strategy(tier):
